@@ -17,7 +17,12 @@ RULE = ('Hypothesis-generated SimNet programs with 1-12 interactions of all mode
         'within a run. Oracle at quiescence: for every interaction that has terminated at the API neither endpoint\'s '
         'stream table contains its id and neither reassembly cache holds a partial frame; interactions that reuse a '
         'wrapped id satisfy the C01 delivery oracle. Non-trivial = an abnormal ending (error or cancel) of a channel '
-        'while its other direction was still open, or a reused stream id; distinct = program hash.')
+        'while its other direction was still open, or a reused stream id; distinct = program hash. Plus (raw peer, '
+        'exhaustive to a depth bound): a harness-scripted peer opens payload fragment trains (PAYLOAD with FOLLOWS) for '
+        'a request-response / stream / channel of the real endpoint in either role and the interaction ends while a '
+        'train is open (peer ERROR, local cancel, or the train closed by a fragment carrying COMPLETE); when the protocol '
+        'says the interaction is over the real endpoint must hold neither the stream entry nor a partial frame; '
+        'non-trivial there = a train was open when the interaction ended.')
 ASSUMPTIONS = ['observation = StreamControl._streams and FrameFragmentCache._frames_by_stream_id (what the suite\'s own '
                'assert_no_open_streams reads)', 'interactions that never terminate at the API are not required to be gone']
 
@@ -139,11 +144,29 @@ def run(tier, seed):
     t0 = time.time()
     total = 2000 if tier == 'quick' else 60000
     nsh = common.NPROC
-    jobs = [dict(tier=tier, seed=0, n=None)] + [dict(tier=tier, seed=s, n=total // nsh) for s in common.shard_seeds(seed, nsh)]
-    stats = common.run_shards(__name__, 'shard', jobs)
+    jobs = [('shard', dict(tier=tier, seed=0, n=None))] + [('shard', dict(tier=tier, seed=s, n=total // nsh))
+                                                             for s in common.shard_seeds(seed, nsh)]
+    depth = 4 if tier == 'quick' else 6
+    parts = 1 if tier == 'quick' else 8
+    for real in ('c', 's'):
+        for k, role in (('rr', 'requester'), ('st', 'requester'), ('ch', 'requester'), ('ch', 'responder')):
+            d = depth + 1 if k == 'rr' else depth
+            for part in range(parts):
+                jobs.append(('raw_shard', dict(tier=tier, seed=seed, real=real, k=k, role=role, depth=d, part=part, parts=parts)))
+    stats = common.run_shards_multi(__name__, jobs)
+    stats.extra['rawpeer_depth'] = depth
     return common.finish(PID, tier, seed, LEVEL, RULE, stats, t0, ASSUMPTIONS)
+
+
+def raw_shard(**kw):
+    from harness.checks import c10_raw
+    return c10_raw.shard(**kw)
 
 
 def replay(path):
     common.use_repo()
-    return common.report_replay(PID, path, prop(common.load_replay(path)))
+    case = common.load_replay(path)
+    if case.get('rawpeer'):
+        from harness.checks import c10_raw
+        return common.report_replay(PID, path, c10_raw.prop(case))
+    return common.report_replay(PID, path, prop(case))
